@@ -255,6 +255,8 @@ class OrderEval:
         if name in IDENT_CALL and args:
             v = self.ev(args[0])
             return Vec(v) if _isvec(v) else v
+        if name == 'builtins.slice' and 1 <= len(args) <= 3 and not kw:
+            return slice(*[self.ev(a) for a in args])
         if name == 'numpy.bincount' and len(args) == 1 and set(kw) <= {'minlength'}:
             v = self.ev(args[0])
             if not _isvec(v) or any(isinstance(x, bool) or not isinstance(x, int) for x in v):
